@@ -407,3 +407,37 @@ func exportLoopsComplete(c *Check, rule string, fns []*ssa.Function) int {
 	}
 	return n
 }
+
+// neverBefore: no execution of fn runs a call to `first` and later a call to `then` (control-flow reachability between the
+// call sites; both must exist).
+func neverBefore(c *Check, rule string, fn *ssa.Function, first, then, okDetail, badDetail string) {
+	as, bs := c.Calls(fn, first), c.Calls(fn, then)
+	construct := funcName(fn) + "/" + first + " never precedes " + then
+	if len(as) == 0 || len(bs) == 0 {
+		c.Bad(rule, construct, fn.Pos(), fmt.Sprintf("%d call(s) of %s and %d of %s in %s: both are required", len(as), first, len(bs), then, funcName(fn)))
+		return
+	}
+	fa := c.P.FA(fn)
+	ok := true
+	pos := as[0].Ins.Pos()
+	for _, a := range as {
+		for _, b := range bs {
+			ab, bb := a.Ins.Block(), b.Ins.Block()
+			reach := false
+			if ab == bb {
+				reach = instrIndex(a.Ins) < instrIndex(b.Ins) || fa.inCycle(ab)
+			} else {
+				for _, s := range ab.Succs {
+					if s == bb || fa.reachFrom(s)[bb.Index] {
+						reach = true
+					}
+				}
+			}
+			if reach {
+				ok = false
+				pos = a.Ins.Pos()
+			}
+		}
+	}
+	c.Req(ok, rule, construct, pos, okDetail, badDetail)
+}
